@@ -436,6 +436,72 @@ def run_shared_unbind(ctx, i, rng):
     ctx.check(ok, 'init_apply_agree:shared_instance_lost:output', lambda: dict(case=desc))
 
 
+def run_name_scope_methods(ctx, i, rng):
+  """Modules with nn.compact_name_scope helper methods, used as SUB-modules (once or several times) of a compact or setup parent: the
+  helper's variables sit under <sub-module name>/<method name>, and the sub-module applied on its own sub-tree computes what it
+  computes inside the parent."""
+  import jax
+  import jax.numpy as jnp
+  import flax.linen as nn
+  from flax.core import unfreeze
+  n_inst = 1 + i % 3
+  parent_style = ['compact', 'setup'][(i // 3) % 2]
+  two_methods = (i // 6) % 2 == 1
+  desc = dict(instances=n_inst, parent=parent_style, methods=2 if two_methods else 1)
+  with ctx.case('name_scope', i, desc, nontrivial=True):
+    class Foo(nn.Module):
+      @nn.compact_name_scope
+      def up(self, x):
+        return nn.Dense(3)(x)
+
+      @nn.compact_name_scope
+      def down(self, x):
+        return nn.Dense(3)(x) * 0.5
+
+      def __call__(self, x):
+        y = self.up(x)
+        return self.down(y) if two_methods else y
+
+    if parent_style == 'compact':
+      class Par(nn.Module):
+        @nn.compact
+        def __call__(self, x):
+          for _ in range(n_inst):
+            x = jnp.tanh(Foo()(x))
+          return x
+      names = ['Foo_%d' % k for k in range(n_inst)]
+    else:
+      class Par(nn.Module):
+        def setup(self):
+          self.blocks = [Foo() for _ in range(n_inst)]
+
+        def __call__(self, x):
+          for b in self.blocks:
+            x = jnp.tanh(b(x))
+          return x
+      names = ['blocks_%d' % k for k in range(n_inst)]
+
+    x = jnp.asarray(np.random.default_rng(i).uniform(-1, 1, (2, 3)).astype(np.float32))
+    try:
+      y0, v = Par().init_with_output(jax.random.key(i), x)
+    except Exception as e:  # noqa: BLE001
+      ctx.check(False, 'tree:compact_name_scope:init_raises', dict(case=desc, error=repr(e)[:300]))
+      return
+    v = unfreeze(v)
+    ctx.op('init(sub-modules with compact_name_scope methods)')
+    meths = ['up', 'down'] if two_methods else ['up']
+    want = {n: {m: {'Dense_0': {'bias': (3,), 'kernel': (3, 3)}} for m in meths} for n in names}
+    got = jax.tree_util.tree_map(lambda a: tuple(np.shape(a)), v['params'])
+    if not ctx.check(got == want, 'tree:compact_name_scope:variables_under_wrong_module', lambda: dict(case=desc, got=got, want=want)):
+      return
+    ctx.check(bool(jnp.allclose(Par().apply(v, x), y0)), 'init_apply_agree:output:compact_name_scope', lambda: dict(case=desc))
+    # each sub-module on its own sub-tree
+    h = x
+    for n in names:
+      h = jnp.tanh(Foo().apply({'params': v['params'][n]}, h))
+    ctx.check(bool(jnp.allclose(h, y0, atol=1e-6)), 'subtree:compact_name_scope', lambda: dict(case=desc))
+
+
 def run_reentrant(ctx, i, rng):
   """Re-entrant compact methods (a subclass calling super().__call__, a method calling self recursively): auto-names keep
   counting in creation order across the re-entrant calls, so every layer gets its own subtree."""
@@ -587,6 +653,8 @@ def run(ctx):
     run_reentrant(ctx, i, ctx.rng('reentrant', i))
   for i in ctx.indices(144 if ctx.tier == 'quick' else 288, 'shared_shape'):
     run_shared_shape(ctx, i, ctx.rng('shared_shape', i))
+  for i in ctx.indices(12, 'name_scope'):
+    run_name_scope_methods(ctx, i, ctx.rng('name_scope', i))
   for i in ctx.indices(32, 'shared_unbind'):
     run_shared_unbind(ctx, i, ctx.rng('shared_unbind', i))
   for i in ctx.indices(54, 'mixed_clash'):
